@@ -270,7 +270,8 @@ func (c *Ctx) walletBodyLiterals() {
 		}
 		c.check(okv, R, name+": action = {msg.Message, msg.Mode} of the same element", f.Pos(), "W5SendMessageAction{Msg: msg.Message, Mode: msg.Mode}", name+" no longer pairs each message with its own send mode")
 	}
-	c.floor(R, 15)
+	c.subWalletSiblings(R)
+	c.floor(R, 16)
 }
 
 func vals2paths(vs []ssa.Value) string {
